@@ -40,6 +40,7 @@ def setup(threads=1):
         raise SystemExit("harness error: no opendsm/ under %s" % root)
     os.environ[GUARD] = "1"
     os.environ.setdefault("PYTHONHASHSEED", "0")
+    os.environ["PYTHONWARNINGS"] = "ignore"
     for v in ("OMP_NUM_THREADS", "MKL_NUM_THREADS", "OPENBLAS_NUM_THREADS", "NUMBA_NUM_THREADS"):
         os.environ[v] = str(threads)
     th = os.environ.get("VERIF_TREE_HASH") or tree_hash(root)
